@@ -389,6 +389,41 @@ def f(a, b):
     w = x[:a]
     return (len(y), y[0], z[1], len(w))
 ''')
+P('list-store-neg', 'list', '''
+def f(a, b):
+    x = [a, b, 7]
+    x[-3] = 100
+    x[-1] += 1
+    return (x[0], x[2])
+''')
+P('list-store-out-of-range', 'list exception', '''
+def f(a, b):
+    x = [a, b]
+    x[2] = 1
+    return x[0]
+''')
+P('list-store-empty', 'list exception', '''
+def f(a, b):
+    x = []
+    x[0] = 1
+    return 0
+''')
+P('list-store-sym-index', 'list', '''
+def f(a, b):
+    x = [10, 20, 30]
+    if -3 <= a < 3:
+        x[a] = 99
+    return (x[0], x[1], x[2])
+''')
+P('in-mixed-bool-int', 'in bool', '''
+def f(a, b):
+    return ((a > 0) in (1, 0), a in (True, b > 0), (a > 0) in ((b > 0), 2))
+''')
+P('const-div-zero', 'floordiv exception', '''
+def f(a, b):
+    x = 0
+    return 5 // x
+''')
 P('list-eq', 'list', '''
 def f(a, b):
     return ([a, b] == [b, a], [a] == [a], [] == [], [a] != [a, a])
